@@ -369,10 +369,17 @@ fn probe_resolution<const V: usize>(e: &mut Exec<V>, seed: u32) {
 
 /// C16: prepare_to_fork / join / after_fork round trip.
 pub fn fork_cycle<const V: usize>(e: &mut Exec<V>) {
+    e.mmtk.prepare_to_fork();
+    fork_join_and_respawn(e);
+}
+
+/// After prepare_to_fork() has been called (by the driver, or from inside a GC): every worker thread must
+/// exit; then respawn.  A worker that never exits is reported by the quiescence watchdog of the process
+/// (all workers parked with a pending request), not by a timeout here.
+pub fn fork_join_and_respawn<const V: usize>(e: &mut Exec<V>) {
     let gl = g();
     let n = e.case.workers.max(1) as usize;
     let spawned_before = gl.spawned.load(Ordering::SeqCst);
-    e.mmtk.prepare_to_fork();
     let handles: Vec<(usize, std::thread::JoinHandle<()>)> = std::mem::take(&mut *gl.workers.lock().unwrap());
     let mut ordinals = vec![];
     for (ord, h) in handles {
@@ -470,6 +477,28 @@ pub fn finish<const V: usize>(e: &mut Exec<V>) {
         }
     }
     e.verdict.counters.insert("c13_abstain_immortal_in_nursery_gc".into(), super::weak::IMMORTAL_NURSERY_ABSTAIN.load(Ordering::Relaxed));
+    e.check_events();
+    // C14: once the program is over, every worker parks with no goal current or requested
+    if !e.is_nogc {
+        let gl = g();
+        let t0 = std::time::Instant::now();
+        loop {
+            let total = gl.sch_total.load(Ordering::SeqCst);
+            let idle = total > 0 && gl.sch_parked.load(Ordering::SeqCst) == total && gl.sch_current.load(Ordering::SeqCst) == 0 && gl.sch_requests.load(Ordering::SeqCst) == 0;
+            let concurrent_busy = mmtk::verif::concurrent_marking_in_progress(e.mmtk) == Some(true);
+            if idle || concurrent_busy || total == 0 {
+                if idle {
+                    cnt!(e, "c14_idle_at_end");
+                }
+                break;
+            }
+            if t0.elapsed().as_secs() >= 20 {
+                e.violate("C14", "workers-not-idle-at-end", format!("20 s after the last operation the GC workers are not idle: parked {}/{}, current goal {}, requests {:#b}", gl.sch_parked.load(Ordering::SeqCst), total, gl.sch_current.load(Ordering::SeqCst), gl.sch_requests.load(Ordering::SeqCst)));
+                return;
+            }
+            std::thread::sleep(std::time::Duration::from_millis(1));
+        }
+    }
     e.check_events();
     e.verdict.counters.insert("plan_idx".into(), super::case::PLANS.iter().position(|p| *p == e.case.plan).unwrap_or(99) as u64);
     e.verdict.counters.insert("build_base".into(), if cfg!(feature = "vo_bit") { 0 } else { 1 });
